@@ -15,7 +15,25 @@ LEAF = ["```\nfoo\n  bar\n\tbaz\n```", "~~~ info str\n x\n\n y\n~~~~", "    code
         "<div>\n \x0cp\n\xa0\xa0r\n</div>", "\xa0\xa0\xa0\xa0not code", " \x1c#\u2028 h"]
 
 
+def _wrap(pre, leaf):
+    cont = "".join(" " if c not in ">\t" else c for c in pre)
+    ls = leaf.split("\n")
+    return "\n".join([pre + ls[0]] + [cont + ln for ln in ls[1:]]) + "\n"
+
+
+# fixed corpus, walked first: every pair of container prefixes (tabs at every column) around the
+# leaves whose content depends on the column arithmetic
+_TABLEAF = ["```\n\tcode\n  x\n```", "\tcode\n\t\tmore", "~~~\n \ty\n~~~"]
+_P = [p for p in dict.fromkeys(PRE) if p]
+FIXED = [_wrap(a + b, lf) for lf in _TABLEAF for a in [""] + _P for b in _P]
+_state = {"i": 0}
+
+
 def verb_doc(rng):
+    i = _state["i"]
+    _state["i"] += 1
+    if i % 2 == 0 and i // 2 < len(FIXED):
+        return FIXED[i // 2]
     lines = []
     for _ in range(rng.randrange(1, 4)):
         pre = "".join(rng.choice(PRE) for _ in range(rng.choice([0, 0, 1, 1, 2])))
